@@ -7,6 +7,7 @@ import (
 	"time"
 
 	"seehuhn.de/go/postscript/funit"
+	"seehuhn.de/go/sfnt/cmap"
 	"seehuhn.de/go/sfnt/glyf"
 	"seehuhn.de/go/sfnt/glyph"
 	"seehuhn.de/go/sfnt/os2"
@@ -92,6 +93,80 @@ func VerifH_C01_truetype() {
 	verifAssert(g1.CreationTime.Unix() == f.CreationTime.Unix() && g1.ModificationTime.Unix() == f.ModificationTime.Unix(), "timestamps")
 	verifAssert(g1.FamilyName == f.FamilyName, "family name")
 	// fixed point
+	b2 := &bytes.Buffer{}
+	g1.Write(b2)
+	g2, err := Read(bytes.NewReader(b2.Bytes()))
+	verifAssert(err == nil, "second cycle accepted")
+	if err != nil {
+		return
+	}
+	b3 := &bytes.Buffer{}
+	g2.Write(b3)
+	verifAssert(verifSame(b2.Bytes(), b3.Bytes()), "one write/read cycle is a byte fixed point")
+}
+
+// VerifH_C01_shapes: further font shapes through Write -> Read -> Write: a composite glyph that declares
+// instructions (0..2 symbolic bytes, followed by another glyph), naming strings with an arbitrary Unicode
+// scalar value (any plane), and a character map with two Macintosh subtables that differ in the language field
+// only (symbolic languages).
+func VerifH_C01_shapes() {
+	variant := verifChoose("variant", 6) // 0: instructions, 1..4: strings (one UTF-8 length class each), 5: cmap
+	glyphs := glyf.Glyphs{verifSimpleGlyph(0), verifSimpleGlyph(1), verifCompositeGlyph(2, 1), nil, verifSimpleGlyph(4)}
+	f := verifTTFont(glyphs)
+	f.CreationTime = time.Unix(1000000000, 0)
+	f.ModificationTime = time.Unix(1100000000, 0)
+	f.CMapTable = verifCmap12([]rune{'A', 'B'}, []glyph.ID{1, 2})
+	switch variant {
+	case 0:
+		cg := glyphs[2].Data.(glyf.CompositeGlyph)
+		cg.Components[len(cg.Components)-1].Flags |= glyf.FlagWeHaveInstructions
+		cg.Instructions = append(make([]byte, 0, 2), verifBytes("instr", verifChoose("ilen", 3))...)
+		glyphs[2].Data = cg
+	case 1, 2, 3, 4:
+		r := rune(verifU32("rune"))
+		lo := []rune{0x20, 0x80, 0x800, 0x10000}[variant-1]
+		hi := []rune{0x7F, 0x7FF, 0xFFFF, 0x10FFFF}[variant-1]
+		verifAssume(r >= lo && r <= hi && (r < 0xD800 || r > 0xDFFF))
+		f.Copyright = "C" + string(r)
+		f.SampleText = string(r) + "x"
+		f.Description = string(r)
+	default:
+		la, lb := verifU16("langa"), verifU16("langb")
+		verifAssume(la != lb)
+		m := cmap.Format4{'A': 1, 'B': 2}
+		f.CMapTable = cmap.Table{
+			cmap.Key{PlatformID: 1, EncodingID: 0, Language: la}: m.Encode(la),
+			cmap.Key{PlatformID: 1, EncodingID: 0, Language: lb}: m.Encode(lb),
+		}
+	}
+	verifMapOrder(true)
+	b1 := &bytes.Buffer{}
+	n, err := f.Write(b1)
+	verifAssert(err == nil && n == int64(b1.Len()), "font written, count equals length")
+	b1b := &bytes.Buffer{}
+	f.Write(b1b)
+	verifMapOrder(false)
+	verifAssert(verifSame(b1.Bytes(), b1b.Bytes()), "writing the same font twice gives the same bytes")
+	g1, err := Read(bytes.NewReader(b1.Bytes()))
+	verifAssert(err == nil, "own file accepted")
+	if err != nil {
+		return
+	}
+	verifReach("read back")
+	o1 := g1.Outlines.(*glyf.Outlines)
+	verifAssert(len(o1.Glyphs) == len(glyphs), "glyph count")
+	for i, gl := range glyphs {
+		if gl == nil {
+			verifAssert(o1.Glyphs[i] == nil, "empty glyph stays empty")
+			continue
+		}
+		verifAssert(o1.Glyphs[i] != nil && verifSame(o1.Glyphs[i].Data, gl.Data), "glyph outlines (components, instructions) come back unchanged")
+	}
+	verifAssert(g1.Copyright == f.Copyright && g1.SampleText == f.SampleText && g1.Description == f.Description, "naming and licensing strings come back unchanged")
+	verifAssert(len(g1.CMapTable) == len(f.CMapTable), "all cmap subtables come back")
+	for k, v := range f.CMapTable {
+		verifAssert(verifSame(g1.CMapTable[k], v), "cmap subtables come back unchanged")
+	}
 	b2 := &bytes.Buffer{}
 	g1.Write(b2)
 	g2, err := Read(bytes.NewReader(b2.Bytes()))
